@@ -93,6 +93,9 @@ type ChunkReader struct {
 	rkey    cbor.RawBytes
 	key     string
 	buffer  []byte
+
+	// tooSmall records that the pending key did not fit the previous size
+	tooSmall bool
 }
 
 // ReadChunk reads ServiceInfo chunked at some MTU. The values contain any
@@ -107,9 +110,11 @@ func (r *ChunkReader) ReadChunk(size uint16) (*KV, error) {
 		}
 		r.r = nextReader
 
-		// Limit the max bytes read for the key to size minus 7 (min overhead,
-		// see note below)
-		keyReader := io.LimitReader(r.r, int64(size-7))
+		// The key is read in full even when it does not fit into what is left
+		// of size: the reader is kept and ErrSizeTooSmall is returned below,
+		// so that the service info starts the next message instead of being
+		// cut off in the middle of its key and lost
+		keyReader := io.Reader(r.r)
 
 		// Read key as raw CBOR
 		if err := cbor.NewDecoder(keyReader).Decode(&r.rkey); err != nil {
@@ -152,8 +157,20 @@ func (r *ChunkReader) ReadChunk(size uint16) (*KV, error) {
 		maxOverhead++
 	}
 	if int(size)-maxOverhead <= 0 {
+		// Not even one byte of the value fits after this key. That is
+		// expected once, when the rest of a message is too small; a second
+		// time in a row means the key can never be sent at this MTU
+		if r.tooSmall {
+			err := fmt.Errorf("service info key %q does not fit in the maximum service info size", r.key)
+			_ = r.r.CloseWithError(err)
+			r.r = nil
+			r.tooSmall = false
+			return nil, err
+		}
+		r.tooSmall = true
 		return nil, ErrSizeTooSmall
 	}
+	r.tooSmall = false
 
 	// Grow buffer if not large enough
 	if len(r.buffer) < int(size)-maxOverhead {
